@@ -322,12 +322,16 @@ fn resolve(tc: Tc, stateless: bool, parallel: bool, via_thread: bool, raw: Vec<R
             }
             if let Some(c) = ri.dup_call {
                 if !all_call_ids.is_empty() {
-                    let (cand, cand_turn, cand_has_id) = all_call_ids[pick(c, all_call_ids.len())].clone();
+                    let (cand, _cand_turn, _cand_has_id) = all_call_ids[pick(c, all_call_ids.len())].clone();
                     // Ambiguous identity, not generated: an item WITHOUT an id that shares its call
                     // id with another item of the same turn. The only identity such an item has is
                     // its call id (docs: missing ids are normalised to the call id), so "two items"
                     // and "one item announced twice" cannot be told apart (DESIGN §8.5).
-                    let ambiguous = cand_turn == t && !(ri.has_id && cand_has_id);
+                    // (checked against every item of this turn that already carries the id —
+                    // two items of one turn can also inherit the same id from an earlier turn)
+                    let ambiguous = all_call_ids
+                        .iter()
+                        .any(|(id, turn, has_id)| *turn == t && *id == cand && !(ri.has_id && *has_id));
                     if !ambiguous {
                         call_id = cand;
                     }
@@ -763,6 +767,21 @@ fn str_of<'a>(v: &'a Value, k: &str) -> &'a str {
 async fn run_async(case: &Case) -> CaseReport {
     let mut rep = CaseReport::new();
     let emit_dup = !(EXCLUDE_KNOWN_DUP_DONE && !case.allow_known && !no_exclude());
+
+    // ---- ambiguous constructions are discarded and counted, never judged (DESIGN §8.5): an item
+    // without an id that shares its call id with another item of the same turn (the generator
+    // avoids the region; this guard covers hand-written and shrunk cases)
+    for turn in &case.turns {
+        for (i, a) in turn.items.iter().enumerate() {
+            for (j, b) in turn.items.iter().enumerate() {
+                if i != j && a.call_id == b.call_id && (a.item_id.is_none() || b.item_id.is_none()) {
+                    rep.class("discarded:ambiguous_item_identity");
+                    rep.count("discarded_ambiguous_item_identity", 1);
+                    return rep;
+                }
+            }
+        }
+    }
 
     // ---- script
     let mut rendered: Vec<Rendered> = Vec::new();
